@@ -58,6 +58,26 @@ def build(reg, src):
            requires=[not_held], ensures=[not_held], ensures_exc=[not_held])
     reg.fn(F + 'get_file', params=dict(file_name=FKey), setup=pub_setup, returns='opaque',
            requires=[not_held], ensures=[not_held], ensures_exc=[not_held])
+    # the writer task: the entry stops being a pending write (update_file_futures_and_memory clears the flag and counts the bytes) only
+    # AFTER the file holds the new contents - otherwise a second update of the same file can be admitted while this write is still in
+    # flight, and the two writes reach the disk in either order (cache and disk disagree for good)
+    def wf_setup(eng, st):
+        setup(eng, st)
+        st.ghost['in_write_file'] = lift(True)
+
+    def file_written(s):
+        if 'in_write_file' not in s.st.ghost or 'wf_contents' not in s.st.ghost:
+            return VBool(True)
+        p = VU(fs.JOIN(A(s.st, s.self)['root'], s.file_name.t))
+        return And(s.g('os')[p] == s.st.ghost['wf_contents'], s.g('os_ex')[p])
+
+    reg.fns[F + 'update_file_futures_and_memory'].requires = list(reg.fns[F + 'update_file_futures_and_memory'].requires) + [file_written]
+
+    def wf_full_setup(eng, st):
+        wf_setup(eng, st)
+        st.ghost['wf_contents'] = st.env['new_file_contents']
+    reg.fn(F + '_write_file', params=dict(file_name=FKey, new_file_contents=Str, use_fsync=Bool), setup=wf_full_setup,
+           requires=[not_held, lambda s: len_(s.new_file_contents) <= VInt(A(s.st, s.self)['max'])], returns='opaque', ensures=[not_held])
     from replay import c18 as rp
     reg.replays.append((r'update_file_futures_and_memory#assert', rp.replay_unload_during_load))
     reg.replays.append((r'update_file_futures_and_memory#release', rp.replay_double_count))
